@@ -252,7 +252,7 @@ def run_eloss(ctx, proofs_ok):
     ctx.build_libs(["celeritas"])
     exe = ctx.compile_harness([os.path.join(HERE_, "harness", "eloss.cc")], "eloss",
                               libs=["celeritas", "orange", "geocel", "corecel"])
-    n = 150 if ctx.tier == "quick" else 4000
+    n = 136 if ctx.tier == "quick" else 4000
     cases = gen_eloss_cases(ctx, n)
     rc, out = ctx.run_harness(exe, input="".join(eloss_line(c) + "\n" for c in cases), timeout=900)
     lines = [l for l in out.strip().splitlines() if l.startswith(("ok", "exhausted", "unknown"))]
@@ -344,7 +344,9 @@ def run_eloss(ctx, proofs_ok):
                                    "first_moment": mom, "requested_mean": mean, "branch": URBAN_BRANCH.get(mbr)})
                     continue
                 # (b) constructor differential
-                if not close(st, mstate, rtol=1e-9, atol=1e-300):
+                # xs_i ~ (w - log E_i) cancels near the branch boundaries: absolute tolerance on the scale of the cross sections
+                xs_scale = 1e-9 * (abs(xs0) + abs(xs1) + abs(xsi))
+                if not (close(st[:4], mstate[:4], rtol=1e-9, atol=1e-300) and close(st[4:], mstate[4:], rtol=1e-9, atol=xs_scale)):
                     ndis += 1
                     if ndis <= 5:
                         ctx.violation("correspondence", "Urban constructor: model and implementation differ (branch %s)" % URBAN_BRANCH.get(mbr),
@@ -612,7 +614,7 @@ def run_stats(ctx, exe):
 
 
 def run(ctx):
-    n = 450 if ctx.tier == "quick" else 12000
+    n = 400 if ctx.tier == "quick" else 12000
     ctx.trusted += [
         "hand-written models coq/C15/Samplers.v, coq/C15/Eloss.v tied by replay-RNG differential (props/C15/run.py, harness/samplers.cc, harness/eloss.cc)",
         "EnergyLossUrbanDistribution's constructor (cross sections from material data) is not modelled: its state is read from the object; EnergyLossHelper's kinematic inputs (gamma, beta^2, Bohr variance) are taken from the implementation",
